@@ -9,6 +9,14 @@ Translated on every run from the CURRENT source:
                                            generate_j_part_cb_from_jump_operators / generate_k_part_cb_.. / generate_d_part_cb_..
         -> gen_j_part_cb, gen_k_part_cb, gen_d_part_cb : nat -> list cmat -> cmat                     (dim, jump_operators)
   quara/objects/composite_system.py        CompositeSystem._calc_basis_basisconjugate_sparse
+  quara/objects/effective_lindbladian.py   _calc_j_mat_from_k_mat_with_sparsity / _calc_k_part_from_k_mat_with_sparsity
+        -> gen_j_of_k_sparse, gen_k_part_sparse : nat -> cmat -> cmat -> cmat  (dim, the table as an opaque matrix, k_mat) with `k_mat.flatten()` = the
+           ROW-MAJOR vectorisation (vecr) whatever the memory layout and `.reshape((a, a))` = unvecr;  gen_sparse_tables : which helper reads which table
+  quara/objects/effective_lindbladian.py   EffectiveLindbladian.calc_proj_ineq_constraint
+        -> gen_proj_ineq_kmat : nat -> list F -> cmat -> cmat   (dim, eigenvals, eigenvecs = the two results of the OPAQUE numpy.linalg.eigh(k_mat)):
+           the clipping loop and V diag(l) V^dagger;  gen_proj_ineq_args : which of h_mat / j_mat / k_mat / the new matrix are handed to
+           generate_effective_lindbladian_from_hjk (every keyword must be forwarded from self)
+  quara/objects/composite_system.py        CompositeSystem._calc_basis_basisconjugate_sparse
         -> gen_tab_0, gen_tab_1, gen_tab_2 : nat -> list cmat -> list cmat    (dim, basis) the lists the loop builds, numbered in order of
            first append;  gen_tab_wiring : list (string * (nat * string))      which attribute is made from which list by which final operation
 coq/gen/C18_Equiv.v (compiled in the same run) proves these equal to the hand-written model for ALL inputs.
@@ -75,6 +83,8 @@ class Fn:
         self.params = params     # coq parameter list [(name, coqtype)]
         self.translated = translated      # module functions already translated: pyname -> (coqname, rettype)
         self.used_opaque = set()
+        self.sparse_helper = False   # translating one of the _calc_*_from_k_mat_with_sparsity helpers
+        self.tables_used = []
 
     # ------------------------------------------------------------------------------------------ expressions
     def to_R(self, t, e, node):
@@ -107,7 +117,7 @@ class Fn:
             if t == OPAQUE:
                 fail(node, "opaque value %s used in an expression" % node.id)
             return t, e
-        if is_attr_chain(node, ["self", "dim"]):
+        if is_attr_chain(node, ["self", "dim"]) or (self.sparse_helper and is_attr_chain(node, ["c_sys", "dim"])):
             return N, "dim"
         if isinstance(node, ast.UnaryOp) and isinstance(node.op, ast.USub):
             t, e = self.expr(node.operand)
@@ -220,6 +230,31 @@ class Fn:
 
     def call(self, node):
         f = node.func
+        if self.sparse_helper and isinstance(f, ast.Attribute) and not node.keywords:
+            # K.flatten()  (ALWAYS row-major, whatever the memory layout)  ->  vecr
+            if f.attr == "flatten" and not node.args:
+                t, e = self.expr(f.value)
+                if t == MM:
+                    return "Vm2", "(vecr (dim * dim - 1) %s)" % e
+                fail(node, "flatten of %s" % (t,))
+            # c_sys.<table>.dot(v)  ->  mv with the table as an opaque matrix parameter
+            if f.attr == "dot" and len(node.args) == 1 and isinstance(f.value, ast.Attribute) and isinstance(f.value.value, ast.Name) and f.value.value.id == "c_sys":
+                t, e = self.expr(node.args[0])
+                if t != "Vm2":
+                    fail(node, "table.dot of %s" % (t,))
+                self.tables_used.append(f.value.attr)
+                return "Vout", "(mv ((dim * dim - 1) * (dim * dim - 1)) T %s)" % e
+            # v.reshape((c_sys.dim, c_sys.dim)) / v.reshape((c_sys.dim ** 2, c_sys.dim ** 2))  ->  unvecr (row-major)
+            if f.attr == "reshape" and len(node.args) == 1 and isinstance(node.args[0], ast.Tuple) and len(node.args[0].elts) == 2:
+                a, b = node.args[0].elts
+                t, e = self.expr(f.value)
+                if t != "Vout" or src(a) != src(b):
+                    fail(node, "reshape outside the subset")
+                if is_attr_chain(a, ["c_sys", "dim"]):
+                    return MD, "(unvecr dim %s)" % e
+                if isinstance(a, ast.BinOp) and isinstance(a.op, ast.Pow) and is_attr_chain(a.left, ["c_sys", "dim"]) and isinstance(a.right, ast.Constant) and a.right.value == 2:
+                    return MN, "(unvecr (dim * dim) %s)" % e
+                fail(node, "reshape target outside the subset")
         # X.T.conj() : conjugate transpose
         if isinstance(f, ast.Attribute) and f.attr in ("conj", "conjugate") and not node.args and not node.keywords \
                 and isinstance(f.value, ast.Attribute) and f.value.attr == "T":
@@ -261,6 +296,11 @@ class Fn:
             if t in (MD, MN, MM):
                 return C, "(mtrace %s %s)" % ({MD: "dim", MN: "(dim * dim)", MM: "(dim * dim - 1)"}[t], e)
             fail(node, "trace of %s" % (t,))
+        if is_call(node, ["np", "diag"], 1):
+            t, e = self.expr(node.args[0])
+            if t == "RL":
+                return MM, "(np_diag %s)" % e
+            fail(node, "np.diag of %s" % (t,))
         if is_call(node, ["np", "eye"], 1):
             t, e = self.expr(node.args[0])
             if t == N and e == "dim":
@@ -542,6 +582,103 @@ def translate_tables(fdef):
     return "\n".join(out)
 
 
+def translate_sparse_helper(fdef, cname, rettype):
+    """_calc_j_mat_from_k_mat_with_sparsity / _calc_k_part_from_k_mat_with_sparsity: straight-line  table.dot(k_mat.flatten()) ; reshape ; scale.
+    returns (coq definition, name of the table attribute used)"""
+    if [a.arg for a in fdef.args.args] != ["k_mat", "c_sys"]:
+        fail(fdef, "parameters")
+    fn = Fn(fdef.name, [], {})
+    fn.sparse_helper = True
+    fn.env["k_mat"] = (MM, "k_mat")
+    lets, result = [], None
+    for st in strip_doc(fdef.body):
+        if result is not None:
+            fail(st, "statement after return")
+        if isinstance(st, ast.Assign) and len(st.targets) == 1 and isinstance(st.targets[0], ast.Name):
+            t, e = fn.expr(st.value)
+            lets.append("let %s_ := %s in" % (st.targets[0].id, e))
+            fn.env[st.targets[0].id] = (t, st.targets[0].id + "_")
+        elif isinstance(st, ast.Return):
+            t, e = fn.expr(st.value)
+            if t != rettype:
+                fail(st, "return type %s, expected %s" % (t, rettype))
+            result = e
+        else:
+            fail(st, "statement outside the subset")
+    if result is None or len(fn.tables_used) != 1:
+        fail(fdef, "exactly one table product expected")
+    return "Definition %s (dim : nat) (T : cmat) (k_mat : cmat) : cmat :=\n  %s\n  %s." % (cname, "\n  ".join(lets), result), fn.tables_used[0]
+
+
+def translate_proj_ineq(fdef):
+    """EffectiveLindbladian.calc_proj_ineq_constraint: the clipping loop, the reconstruction V diag(l) V^dagger and WHICH matrices are handed to
+    generate_effective_lindbladian_from_hjk; numpy.linalg.eigh is opaque: its two results are the parameters eigenvals (list of reals) and eigenvecs."""
+    fn = Fn(fdef.name, [], {})
+    roles, lets, args, result = {}, [], None, None
+    ev = vec = None
+    for st in strip_doc(fdef.body):
+        if result is not None:
+            fail(st, "statement after return")
+        if isinstance(st, ast.Assign) and len(st.targets) == 1 and isinstance(st.targets[0], ast.Name):
+            nm, v = st.targets[0].id, st.value
+            hit = [r for r in ("h", "j", "k") if is_call(v, ["self", "calc_%s_mat" % r], 0)]
+            if hit:
+                roles[nm] = hit[0]
+            elif isinstance(v, ast.Call) and isinstance(v.func, ast.Name) and v.func.id == "generate_effective_lindbladian_from_hjk":
+                if len(v.args) != 4 or not is_attr_chain(v.args[0], ["self", "composite_system"]) or not all(isinstance(a, ast.Name) for a in v.args[1:]):
+                    fail(st, "call of generate_effective_lindbladian_from_hjk outside the subset")
+                for kw in v.keywords:
+                    if not is_attr_chain(kw.value, ["self", kw.arg]):
+                        fail(st, "keyword %s is not forwarded from self" % kw.arg)
+                args = [roles.get(a.id, None) for a in v.args[1:]]
+                if None in args:
+                    fail(st, "argument of unknown origin")
+                roles[nm] = "result"
+            else:
+                t, e = fn.expr(v)
+                if t != MM:
+                    fail(st, "binding of type %s" % (t,))
+                lets.append("let %s_ := %s in" % (nm, e))
+                fn.env[nm] = (t, nm + "_")
+                roles[nm] = "new_k"
+                newk = nm + "_"
+        elif isinstance(st, ast.Assign) and len(st.targets) == 1 and isinstance(st.targets[0], ast.Tuple) and is_call(st.value, ["np", "linalg", "eigh"], 1) \
+                and isinstance(st.value.args[0], ast.Name) and roles.get(st.value.args[0].id) == "k" and len(st.targets[0].elts) == 2 \
+                and all(isinstance(e, ast.Name) for e in st.targets[0].elts):
+            ev, vec = st.targets[0].elts[0].id, st.targets[0].elts[1].id
+            fn.env[ev] = ("RL", "eigenvals"); fn.env[vec] = (MM, "eigenvecs")
+        elif isinstance(st, ast.For) and ev is not None and not st.orelse and isinstance(st.target, ast.Name) \
+                and isinstance(st.iter, ast.Call) and isinstance(st.iter.func, ast.Name) and st.iter.func.id == "range" and len(st.iter.args) == 1 \
+                and isinstance(st.iter.args[0], ast.Call) and isinstance(st.iter.args[0].func, ast.Name) and st.iter.args[0].func.id == "len" \
+                and len(st.iter.args[0].args) == 1 and isinstance(st.iter.args[0].args[0], ast.Name) and st.iter.args[0].args[0].id == ev:
+            idx = st.target.id
+            if len(st.body) != 1 or not isinstance(st.body[0], ast.If) or st.body[0].orelse or len(st.body[0].body) != 1:
+                fail(st, "clipping loop body")
+            iff = st.body[0]; asg = iff.body[0]
+            def is_elem(n_):
+                return isinstance(n_, ast.Subscript) and isinstance(n_.value, ast.Name) and n_.value.id == ev and isinstance(n_.slice, ast.Name) and n_.slice.id == idx
+            def const(n_):
+                if isinstance(n_, ast.Constant) and isinstance(n_.value, int) and not isinstance(n_.value, bool) and n_.value >= 0:
+                    return "(ofnat %d%%nat)" % n_.value
+                fail(n_, "constant")
+            if not (isinstance(iff.test, ast.Compare) and len(iff.test.ops) == 1 and isinstance(iff.test.ops[0], ast.Lt) and is_elem(iff.test.left)):
+                fail(iff, "clipping condition")
+            if not (isinstance(asg, ast.Assign) and len(asg.targets) == 1 and is_elem(asg.targets[0])):
+                fail(asg, "clipping assignment")
+            cur = fn.env[ev][1]
+            lets.append("let %s'_ := fold_left (fun l_ %s_ => if rltb (nth %s_ l_ (ofnat 0%%nat)) %s then lset l_ %s_ %s else l_) (seq 0 (List.length %s)) %s in"
+                        % (ev, idx, idx, const(iff.test.comparators[0]), idx, const(asg.value), cur, cur))
+            fn.env[ev] = ("RL", ev + "'_")
+        elif isinstance(st, ast.Return) and isinstance(st.value, ast.Name) and roles.get(st.value.id) == "result":
+            result = True
+        else:
+            fail(st, "statement outside the subset")
+    if not result or args is None or "new_k" not in roles.values():
+        fail(fdef, "shape of calc_proj_ineq_constraint")
+    return ("Definition gen_proj_ineq_kmat (dim : nat) (eigenvals : list F) (eigenvecs : cmat) : cmat :=\n  %s\n  %s.\n" % ("\n  ".join(lets), newk)
+            + "Definition gen_proj_ineq_args : list string := [%s]." % "; ".join('"%s"%%string' % a for a in args))
+
+
 def find_def(tree, name, cls=None):
     scope = tree.body
     if cls is not None:
@@ -582,6 +719,7 @@ Notation cmat := (cmat F).
 Notation ci := (ci F). Notation rc := (rc F). Notation cdivr := (cdivr F). Notation ropp := (copp F). Notation radd := (cadd F).
 Notation rsub := (csub F). Notation rmul := (cmul F). Notation rdiv := (kdiv F). Notation ofnat := (@ofnat F).
 Notation mset := (mset F). Notation reduce_add := (reduce_add F). Notation mnth := (mnth F).
+Notation rltb := (rltb F). Notation lset := (lset F). Notation np_diag := (np_diag F).
 """
 
 
@@ -604,6 +742,12 @@ def main():
             defs.append(translate_acc_function(find_def(el, py), cq, P2, tr, MN))
             tr[py] = (cq, MN, L(MD))
         defs.append(translate_tables(find_def(cs, "_calc_basis_basisconjugate_sparse", "CompositeSystem")))
+        used = []
+        for py, cq, rt in [("_calc_j_mat_from_k_mat_with_sparsity", "gen_j_of_k_sparse", MD), ("_calc_k_part_from_k_mat_with_sparsity", "gen_k_part_sparse", MN)]:
+            dfn, tab = translate_sparse_helper(find_def(el, py), cq, rt)
+            defs.append(dfn); used.append((py, tab))
+        defs.append(translate_proj_ineq(find_def(el, "calc_proj_ineq_constraint", "EffectiveLindbladian")))
+        defs.append("Definition gen_sparse_tables : list (string * string) := [%s]." % "; ".join('("%s"%%string, "%s"%%string)' % u for u in used))
     except Unsupported as e:
         sys.stderr.write("c18_py2coq: UNSUPPORTED: %s\n" % e)
         sys.exit(3)
